@@ -402,42 +402,75 @@ theorem select_misaligned_raises :
 
 /-- **Current code** (fix e3a14a2db = findings/nwu/select-candidates-misaligned.diff; `Inputs.lockstep = true`, probed by
 the check on the working tree — a revert is reported): with `unit_is_prefix` filtered together with the results `extract`
-always returns for well-formed
-inputs: `_select_candidates` gets at most as many flags as results, and every result ends inside the string. -/
+always returns for well-formed inputs, whatever the filter regexes answer: `_select_candidates` gets at most as many
+flags as results, and every result ends inside the string. (`_filter_ambiguity` itself has no failing operation left
+after fix 1adaa8061 — the model of it is a total function.) -/
 theorem extractPre_lockstep_returns (c : Cfg) (i : Inputs) (h : WF c i) (hl : i.lockstep = true) :
     (extractPre c i).isSome = true := by
-  have hinv := loopState_inv c i h
   unfold extractPre
   split
   · rfl
-  · simp only []
-    split
-    · generalize hnu : (if (loopState c i).nonUnitComputed = true then i.nonUnit else []) = nu
+  · split
+    · simp only []
       split
-      · -- currency: select
-        have hres : ∀ r ∈ separateUnits (fixedSource c i).length i.ambTerm nu (loopState c i).result i.sep,
-            ResOK (fixedSource c i) r := by
-          intro r hr
-          rcases separateUnits_mem _ _ _ _ _ _ hr with hr | ⟨m, hm, _, rfl⟩
-          · exact hinv.2.1 r hr
-          · exact sepER_ok _ m (h.separate m hm)
-        have hlen0 : (loopState c i).flags.length ≤
-            (separateUnits (fixedSource c i).length i.ambTerm nu (loopState c i).result i.sep).length := by
-          rw [hinv.2.2]; exact separateUnits_length_ge _ _ _ _ _
-        apply select_returns_partial
+      · apply select_returns_partial
         · unfold selectFlags
-          simp only [hl, if_true]
-          split
-          · exact applyMask_length_le _ _ _ (applyMask_length_le _ _ _ hlen0)
-          · exact applyMask_length_le _ _ _ hlen0
+          simp only [hl, if_true, List.length_map]
+          exact List.length_filterMap_le _ _
         · intro r hr
-          have hr1 : r ∈ applyMask (separateUnits (fixedSource c i).length i.ambTerm nu (loopState c i).result i.sep) i.mask1 := by
-            split at hr
-            · exact applyMask_mem _ _ _ hr
-            · exact hr
-          exact (hres r (applyMask_mem _ _ _ hr1)).erEnd_le
+          exact (filteredTagged_resOK c i h r hr).erEnd_le
       · rfl
     · rfl
+
+/-! ### `_filter_ambiguity` (for ANY outcome of the filter regexes) -/
+
+/-- C05(k) **the ambiguity filters only remove**: whatever the key / value / single-char-unit regexes answer, the result
+is a sub-list of the input — same elements, same order, nothing altered, nothing added. -/
+theorem filter_ambiguity_only_removes {α} (proj : α → ER) (srcLen : Nat) (fs : FilterSpec) (ers : List α) :
+    (filterAmbiguity proj srcLen fs ers).Sublist ers :=
+  filterAmbiguity_sublist proj srcLen fs ers
+
+/-- … hence every property of pairs of results (e.g. disjointness, C12) and of single results (spans, C01) survives it. -/
+theorem filter_ambiguity_preserves_pairwise {α} (proj : α → ER) (srcLen : Nat) (fs : FilterSpec) (ers : List α)
+    (R : α → α → Prop) (h : ers.Pairwise R) : (filterAmbiguity proj srcLen fs ers).Pairwise R :=
+  h.sublist (filterAmbiguity_sublist proj srcLen fs ers)
+
+/-- What one dictionary entry does, in closed form (the loop re-binds `ers` while iterating the old list; applying the same
+overlap filter again changes nothing): if the key regex hits the text of SOME result of the incoming list and the value
+regex matches somewhere in the source, every result overlapping a value match is removed; otherwise the list is unchanged. -/
+theorem filter_ambiguity_entry (proj : α → ER) (f : AmbFilter) (ers : List α) :
+    ambFilterStep proj f ers =
+      if ers.any (fun x => f.keyHit (proj x).text) && !f.valMatches.isEmpty then
+        ers.filter (fun y => !overlapsAny f.valMatches (proj y))
+      else ers :=
+  ambFilterStep_eq proj f ers
+
+/-- No filter entry whose key regex hits a result's text, no single-char unit ⇒ `_filter_ambiguity` is the identity
+(the situation of every table row of the property: this is why the row replay sees the loop's result). -/
+theorem filter_ambiguity_identity (proj : α → ER) (srcLen : Nat) (fs : FilterSpec) (ers : List α)
+    (hk : ∀ f ∈ fs.filters, ∀ x ∈ ers, f.keyHit (proj x).text = false)
+    (hs : ∀ x ∈ ers, fs.scu (proj x).text = false) :
+    filterAmbiguity proj srcLen fs ers = ers := by
+  unfold filterAmbiguity
+  have gen : ∀ (fl : List AmbFilter), (∀ f ∈ fl, ∀ x ∈ ers, f.keyHit (proj x).text = false) →
+      fl.foldl (fun cur f => ambFilterStep proj f cur) ers = ers := by
+    intro fl
+    induction fl with
+    | nil => intro _; rfl
+    | cons f fl ih =>
+      intro h
+      simp only [List.foldl_cons]
+      have : ambFilterStep proj f ers = ers := by
+        rw [ambFilterStep_eq]
+        have : ers.any (fun x => f.keyHit (proj x).text) = false := by
+          rw [List.any_eq_false]; intro x hx; simp [h f List.mem_cons_self x hx]
+        simp [this]
+      rw [this]
+      exact ih (fun g hg => h g (List.mem_cons_of_mem _ hg))
+  simp only [gen fs.filters hk]
+  rw [List.filter_eq_self]
+  intro x hx
+  simp [hs x hx]
 
 /-! ### `BaseMergedUnitExtractor` (currency) -/
 
